@@ -1659,3 +1659,79 @@ func isNullConst(v ssa.Value) bool {
 	k, ok := constInt(v)
 	return ok && k == 255
 }
+
+// ---- R104: Must* wrappers panic exactly when the wrapped call failed ----
+
+func init() {
+	register(&Rule{ID: "R104", Name: "MUST-WRAPPERS", Floor: 5,
+		Text: "every exported Must* wrapper of the root package (MustIntView, ...) panics only on the side of its branch where the error returned by the wrapped call is non-nil, and returns the wrapped call's value on the other side: the typed views obtained through MustXView and XView agree, and a valid column never panics",
+		Run:  runR104})
+}
+
+func runR104(c *Ctx) {
+	p := c.P
+	for _, fn := range p.FuncsIn("") {
+		if fn.Parent() != nil || !strings.HasPrefix(fn.Name(), "Must") || fn.Object() == nil || !fn.Object().Exported() {
+			continue
+		}
+		fnm := fname(fn)
+		key := fnm + "|panic iff error"
+		// the wrapped call: a call whose last result is an error
+		var errVal ssa.Value
+		eachInstr(fn, func(in ssa.Instruction) {
+			ex, ok := in.(*ssa.Extract)
+			if ok && isErrorType(ex.Type()) {
+				errVal = ex
+			}
+		})
+		if errVal == nil {
+			c.undecided(key, p.pos(fn.Pos()), "no wrapped call returning an error found")
+			continue
+		}
+		bad := ""
+		nPanic, nRet := 0, 0
+		for _, b := range fn.Blocks {
+			last := b.Instrs[len(b.Instrs)-1]
+			_, isPanic := last.(*ssa.Panic)
+			_, isRet := last.(*ssa.Return)
+			if !isPanic && !isRet {
+				continue
+			}
+			underErr, underOk := false, false
+			for _, g := range dominatingGuards(b) {
+				bo, ok := g.Cond.(*ssa.BinOp)
+				if !ok || bo.X != errVal {
+					continue
+				}
+				if cst, ok := bo.Y.(*ssa.Const); !ok || !cst.IsNil() {
+					continue
+				}
+				nonNil := (bo.Op == token.NEQ) == g.Val
+				if nonNil {
+					underErr = true
+				} else {
+					underOk = true
+				}
+			}
+			if isPanic {
+				nPanic++
+				if !underErr {
+					bad = "the panic at " + p.instrPos(last) + " is not limited to err != nil"
+				}
+			} else {
+				nRet++
+				if !underOk {
+					bad = "the return at " + p.instrPos(last) + " is reachable with err != nil (or the test is inverted: a valid column panics)"
+				}
+			}
+		}
+		switch {
+		case bad != "":
+			c.bad(key, p.pos(fn.Pos()), bad)
+		case nPanic == 0 || nRet == 0:
+			c.undecided(key, p.pos(fn.Pos()), "expected one panic and one return")
+		default:
+			c.ok(key, p.pos(fn.Pos()), "panics exactly under err != nil")
+		}
+	}
+}
